@@ -13,7 +13,7 @@
    F = write_to of the freshly allocated (and filled) object: it fixes the capacities; S0 = an optional first
    stream read into it (so that the current dimensions differ from the capacity); S = the stream under test.
    dbg = 1: overflow checks on; rk = 0 Cursor, 1 a reader that delivers 3 bytes per call (partial read_exact), 2 &[u8];
-   model = 1: predict with the repaired readers (used to test work/proposed_fixes against a patched tree).
+   model = 0: the model in force; 1: the repaired readers; 2: repaired readers + staged composites (used to test work/proposed_fixes against a patched tree).
    oc / woc: 0 Ok, 1 Err, 2 panic (of the dump).  18011..18014 / 18031..18035 = single clauses of the oracle
    (same record), used by tools/props/c18.py to name the class of a failure. *)
 From PV Require Import Base.MachineInt Model.C18Serial.
@@ -199,13 +199,14 @@ Definition parse_fresh := parse_gobj_p true.      (* F: buffers padded to the al
 Definition parse_gobj := parse_gobj_p false.      (* dumps: buffers = active bytes *)
 
 (* ---------- generic read / dump ---------- *)
-Definition read_gobj (fixedm : bool) (dbg partial : bool) (g : gobj) (s : bytes) : outcome * gobj :=
+(* m = 0: the model in force (the reader_X definitions); 1: the repaired readers; 2: the repaired readers with staged composites *)
+Definition read_gobj (m : Z) (dbg partial : bool) (g : gobj) (s : bytes) : outcome * gobj :=
   match g with
-  | GF f => let '(o, x, _) := (if fixedm then fixed_flat else reader_flat) dbg partial f s in (o, GF x)
-  | GW w => let '(o, x, _) := (if fixedm then fixed_wobj else reader_wobj) dbg partial w s in (o, GW x)
-  | GK k => let '(o, x, _) := (if fixedm then fixed_kseq else reader_kseq) dbg partial k s in (o, GK x)
-  | GC c => let '(o, x, _) := (if fixedm then fixed_cbk else reader_cbk) dbg partial c s in (o, GC x)
-  | GB b => let '(o, x, _) := (if fixedm then fixed_bdd else reader_bdd) dbg partial b s in (o, GB x)
+  | GF f => let '(o, x, _) := (if m =? 0 then reader_flat else fixed_flat) dbg partial f s in (o, GF x)
+  | GW w => let '(o, x, _) := (if m =? 0 then reader_wobj else fixed_wobj) dbg partial w s in (o, GW x)
+  | GK k => let '(o, x, _) := (if m =? 0 then reader_kseq else if m =? 2 then staged_kseq else fixed_kseq) dbg partial k s in (o, GK x)
+  | GC c => let '(o, x, _) := (if m =? 0 then reader_cbk else if m =? 2 then staged_cbk else fixed_cbk) dbg partial c s in (o, GC x)
+  | GB b => let '(o, x, _) := (if m =? 0 then reader_bdd else if m =? 2 then staged_bdd else fixed_bdd) dbg partial b s in (o, GB x)
   end.
 
 Definition dump_gobj (dbg : bool) (g : gobj) : outcome * bytes :=
@@ -232,12 +233,12 @@ Definition apply_aux (tcode aux : Z) (g : gobj) : gobj :=
   else g.
 
 (* ---------- run ---------- *)
-Definition pre_read (fixedm dbg partial has : bool) (g : gobj) (s0 : bytes) : option gobj :=
+Definition pre_read (fixedm : Z) (dbg partial has : bool) (g : gobj) (s0 : bytes) : option gobj :=
   if has then let '(o, g') := read_gobj fixedm dbg partial g s0 in if is_panic o then None else Some g'
   else Some g.
 
 Definition run_read (ps : list Z) (vs : list (list Z)) : option (list (list Z)) :=
-  let dbg := b2 (p ps 0) in let partial := (p ps 1 =? 1) in let fixedm := b2 (p ps 4) in
+  let dbg := b2 (p ps 0) in let partial := (p ps 1 =? 1) in let fixedm := p ps 4 in
   match schema_of (p ps 2) with
   | None => None
   | Some sc =>
@@ -268,7 +269,7 @@ Definition run_write (ps : list Z) (vs : list (list Z)) : option (list (list Z))
   end.
 
 Definition run_roundtrip (ps : list Z) (vs : list (list Z)) : option (list (list Z)) :=
-  let dbg := b2 (p ps 0) in let partial := (p ps 1 =? 1) in let fixedm := b2 (p ps 4) in
+  let dbg := b2 (p ps 0) in let partial := (p ps 1 =? 1) in let fixedm := p ps 4 in
   match schema_of (p ps 2) with
   | None => None
   | Some sc =>
